@@ -714,6 +714,24 @@ impl<'a> Pool<'a> {
         }
     }
 
+    /// a choice, repeated, between an adjacent group and a plain flag (an enum with an
+    /// `adjacent` variant collected into a vector): `construct!([point, verbose]).many()`
+    pub fn adjacent_group_in_choice(&mut self) -> Spec {
+        let first = Spec::Item(self.flag_item(Leaf::ReqFlag));
+        let mut fields = vec![first];
+        for _ in 0..self.rng.range(1, 2) {
+            fields.push(Spec::Item(self.pos_item(Strict::Any)));
+        }
+        let group = Spec::Adj(fields);
+        let other = Spec::Item(self.flag_item(Leaf::ReqFlag));
+        let alt = if self.rng.chance(1, 2) {
+            Spec::Alt(vec![group, other])
+        } else {
+            Spec::Alt(vec![other, group])
+        };
+        Spec::wrap(W::Many { catch: false }, self.id(), alt)
+    }
+
     /// an adjacent group with a nested member that needs two items and gives back what it took
     /// when the second one is missing: `-a [X Y] [-z]` (`construct!(x, y).fallback(..)` or
     /// `.optional().catch()`), followed by an optional member
